@@ -372,6 +372,14 @@ func (x *Exec) loopHeader(f *Frame, st *State, b *ssa.BasicBlock, prev *ssa.Basi
 	}
 	env := x.frameEnv(f, st, b)
 	x.addTopLets(env)
+	// witness definitions (skolem functions of the contract) are available at loop heads too
+	if c != nil {
+		for _, wc := range c.Witness {
+			if t, err := x.evalBool(env, wc.Expr); err == nil {
+				st.assume(t)
+			}
+		}
+	}
 	for _, iv := range invs {
 		t, err := x.evalBool(env, iv.Expr)
 		if err != nil {
